@@ -5,6 +5,7 @@ import Spydr.Edif.Props.C03Fragment
 import Spydr.Edif.Props.C05Denote
 import Spydr.Edif.Props.C05Struct
 import Spydr.Edif.Props.C05Kw
+import Spydr.Edif.Props.C05Erase
 import Spydr.Edif.Props.Fragment
 #print axioms Spydr.Edif.C05.readS_flatten
 #print axioms Spydr.Edif.C05.multibit_merge
@@ -73,3 +74,11 @@ import Spydr.Edif.Props.Fragment
 #print axioms Spydr.Edif.C03.fragment_check_sound
 #print axioms Spydr.Edif.C05.fragment_check_sound
 #print axioms Spydr.Edif.C03.compose_after_parse
+#print axioms Spydr.Edif.C05.edif_erasure
+#print axioms Spydr.Edif.C05.edif_erasure_rel
+#print axioms Spydr.Edif.C05.edif_erasure_text
+#print axioms Spydr.Edif.C05.edif_reader_spec_erased
+#print axioms Spydr.Edif.C05.edif_reader_spec_erased_text
+#print axioms Spydr.Edif.C05.ErasureExample.noisy_accepted
+#print axioms Spydr.Edif.C05.ErasureExample.strip_noisy
+#print axioms Spydr.Edif.C05.ErasureExample.noisy_ne_core
